@@ -306,6 +306,14 @@ def robustness_stream(ctx):
     # fully booked day; mirrored for the backward scheduler with the first day of a calendar
     rng3 = _random.Random('C14/last-day/%s' % ctx.seed)
     cases += [gen_last_day_case(rng3) for _ in range(6 if ctx.tier == 'quick' else 60)]
+    # aimed: capacity counted in very small units - a thousand million or more reserved on the partly used day
+    for d in ('fwd', 'bwd'):
+        big = 2_000_000_000 * rng3.choice([1, 3])
+        c = sc.C(d, [sc.T(1, resource='a', est=8 * (2 * big + big // 2))], pb=sc.day_us(0), now=sc.day_us(-9),
+                 resources=[{'name': 'a', 'cal': sc.wk([0, 1, 2, 3, 4, 5, 6], ['i', big])}])
+        c['outcome_only'] = True
+        c['edit_calendars'] = []
+        cases.append(c)
     outs = []
     for i in range(0, len(cases), 20):
         outs += ctx.impl_run('sched_impl', cases[i:i + 20])
